@@ -271,7 +271,7 @@ class Translator:
             return ast.BoolOp(op=ast.And(), values=[self.truth(a), self.truth(b)])
         if op == "||":
             return ast.BoolOp(op=ast.Or(), values=[self.truth(a), self.truth(b)])
-        if op == "&" and b.get("kind") == "IntegerLiteral" and b.get("value") == "1":
+        if op == "&" and self._strip(b).get("kind") == "IntegerLiteral" and self._strip(b).get("value") == "1":
             return self.call("__cmod", self.ex(a), self.const(2)) if False else self.call("__bit0", self.ex(a))
         if op == "^":
             return self.call("__xor01", self.ex(a), self.ex(b))
@@ -470,6 +470,13 @@ class Translator:
                 self.dropped += 1
                 return self.index_obligations(d) + [ast.Assign(targets=[ast.Name(id=nm, ctx=ast.Store())],
                                                                value=self.call("__new_int_array", self.ex(init["inner"][0])))]
+        if "*" in t and is_float_type(t) and inits and self._find(inits[0], "CXXNewExpr") is not None:
+            # T *p = new T[size] with a floating T: only the size is kept, for the bounds obligations of p[...]
+            new = self._find(inits[0], "CXXNewExpr")
+            if new.get("isArray") and new.get("inner"):
+                self.dropped += 1
+                self.float_arrays = getattr(self, "float_arrays", set()) | {nm}
+                return self.index_obligations(d) + [ast.Assign(targets=[ast.Name(id=nm + "_size", ctx=ast.Store())], value=self.ex(new["inner"][0]))]
         if is_float_type(t) or "std::string" in t or "basic_string" in t or "TComplex" in t:
             self.dropped += 1
             return self.index_obligations(d)
@@ -574,8 +581,8 @@ class Translator:
                             ast.Compare(left=self.const(0), ops=[ast.LtE(), ast.Lt()], comparators=[c, self.name(m.id + "_cols")])]),
                             f"matrix-index-in-bounds {m.id}"))
                         self.bounds += 1
-                    except Unsupported:
-                        pass
+                    except Unsupported as e:
+                        raise Unsupported(f"index expression of a dropped floating statement cannot be translated: {e}")
                 elif opname == "operator[]" and len(args) == 2:
                     try:
                         base = self.ex(args[0])
@@ -590,8 +597,18 @@ class Translator:
                         out.append(self.obligation(ast.Compare(left=self.const(0), ops=[ast.LtE(), ast.Lt()], comparators=[idx, size]),
                                                    f"index-in-bounds {ast.unparse(base)}"))
                         self.bounds += 1
-                    except Unsupported:
-                        pass
+                    except Unsupported as e:
+                        raise Unsupported(f"index expression of a dropped floating statement cannot be translated: {e}")
+            elif k == "ArraySubscriptExpr":
+                base_n = self._strip(x["inner"][0])
+                if base_n.get("kind") == "DeclRefExpr" and is_float_type(qt(x)):
+                    nm = base_n["referencedDecl"]["name"]
+                    if nm not in getattr(self, "float_arrays", set()):
+                        raise Unsupported(f"subscript of the floating pointer {nm} whose size is not known")
+                    idx = self.ex(x["inner"][1])
+                    out.append(self.obligation(ast.Compare(left=self.const(0), ops=[ast.LtE(), ast.Lt()], comparators=[idx, self.name(nm + "_size")]),
+                                               f"index-in-bounds {nm}"))
+                    self.bounds += 1
             for c in x.get("inner", []) or []:
                 walk(c)
 
@@ -612,7 +629,14 @@ class Translator:
         cond, then = inner[0], inner[1]
         els = inner[2] if len(inner) > 2 else None
         if self.has_float_dependency(cond):
-            raise Unsupported("branch condition depends on a floating value")
+            if not self.contract.get("float_branches_nondet"):
+                raise Unsupported("branch condition depends on a floating value")
+            # safety-only mode: the outcome of a floating comparison is arbitrary; BOTH branches are verified
+            # (the subscripts inside the condition keep their bounds obligations)
+            self.nondet_branches = getattr(self, "nondet_branches", 0) + 1
+            return self.index_obligations(cond) + [
+                ast.If(test=ast.Compare(left=self.call("__uninit"), ops=[ast.NotEq()], comparators=[self.const(0)]),
+                       body=self.block_of(then) or [ast.Pass()], orelse=self.block_of(els) if els else [])]
         pre = []
         handler = self._cond_handler(cond)
         if handler is not None:
